@@ -324,7 +324,21 @@ func keys(m map[string]bool) []string {
 }
 
 // reachableRepoFuncs: fn and every repository/reference function statically reachable from it.
+var reachCache = map[*ssa.Function][]*ssa.Function{}
+
 func reachableRepoFuncs(fn *ssa.Function) []*ssa.Function {
+	if fn == nil {
+		return nil
+	}
+	if r, ok := reachCache[fn]; ok {
+		return r
+	}
+	r := reachableRepoFuncs0(fn)
+	reachCache[fn] = r
+	return r
+}
+
+func reachableRepoFuncs0(fn *ssa.Function) []*ssa.Function {
 	seen := map[*ssa.Function]bool{}
 	var out []*ssa.Function
 	var walk func(f *ssa.Function)
